@@ -5,6 +5,7 @@ package jwkutil
 import (
 	"errors"
 
+	"github.com/lestrrat-go/jwx/v2/jwa"
 	"github.com/lestrrat-go/jwx/v2/jwk"
 )
 
@@ -106,9 +107,9 @@ func vpH_c18_reload() {
 	base := vpAbstractKey(true, true, 0, okAlg, kty, "k")
 	loads := vpParam("loads")
 	for i := 0; i < loads; i++ {
-		hasAlg := vpBool()
+		hasAlg := true
 		alg := okAlg
-		switch vpInt(0, 4) {
+		switch vpInt(0, 5) {
 		case 1:
 			alg = "ES256"
 		case 2:
@@ -117,20 +118,27 @@ func vpH_c18_reload() {
 			alg = "RS256"
 		case 4:
 			alg = "EdDSA"
+		case 5:
+			hasAlg = false
 		}
-		kid := "k"
+		kid, want := "k", ""
 		if vpBool() {
-			kid = "j"
+			kid, want = "j", "j"
+		}
+		if vpBool() {
+			// a refused request for a key pair in between: it must have no effect
+			bad := "RS256"
+			if i > 0 {
+				bad = ""
+			}
+			pub, priv, gerr := NewKeyPair("g", jwa.SignatureAlgorithm(bad))
+			vpAssert(gerr != nil && pub == nil && priv == nil, "a key pair for an unsupported algorithm is refused")
 		}
 		var key jwk.Key
 		if vpBool() {
 			key = vpAbstractKeyLike(base, hasAlg, 0, alg, kid) // same material as before
 		} else {
 			key = vpAbstractKey(true, hasAlg, 0, alg, kty, kid) // fresh material
-		}
-		want := ""
-		if vpBool() {
-			want = kid
 		}
 		path := vpKeySetFile(vpAbstractSet(key))
 		got, err := LoadKey(path, want)
